@@ -498,6 +498,7 @@ req_sketch<T, C, A> req_sketch<T, C, A>::deserialize(std::istream& is, const Ser
     const auto begin = compactors[0].begin();
     const auto end = compactors[0].end();
     n = compactors[0].get_num_items();
+    if (n == 0) throw std::invalid_argument("Possible corruption: no items in a non-empty sketch");
     auto min_it = begin;
     auto max_it = begin;
     for (auto it = begin; it != end; ++it) {
@@ -584,6 +585,7 @@ req_sketch<T, C, A> req_sketch<T, C, A>::deserialize(const void* bytes, size_t s
     const auto begin = compactors[0].begin();
     const auto end = compactors[0].end();
     n = compactors[0].get_num_items();
+    if (n == 0) throw std::invalid_argument("Possible corruption: no items in a non-empty sketch");
     auto min_it = begin;
     auto max_it = begin;
     for (auto it = begin; it != end; ++it) {
